@@ -253,9 +253,17 @@ class QueryParser(BaseQueryParser):
         if prop:
             self.q_dict["Prop"] = re.findall(re_obj, prop.group(0))
 
-            p_value = re.compile(r"value:\[(.*)]", re.DOTALL)
+            # The list of searched values ends at its own closing bracket: the first one
+            # after which the Property part ends or the next 'attribute:' pair begins.
+            # The texts of the pairs that follow may contain brackets themselves, and so
+            # may the values, which are free of ':' and ')'. Only when no bracket is
+            # followed that way the list is taken up to the last bracket there is.
+            p_value = re.compile(r"value:\[(.*?)\](?=[,\s]*(?:[)]|\w+:))", re.DOTALL)
+            p_value_any = re.compile(r"value:\[(.*)\]", re.DOTALL)
 
             value_group = re.findall(p_value, prop.group(0))
+            if not value_group:
+                value_group = re.findall(p_value_any, prop.group(0))
             if value_group:
                 values = re.split(", ?", value_group[0])
                 self.q_dict["Prop"].append(("value", values))
